@@ -10,8 +10,12 @@ CONSTANTS
   Vols = {1, 2, 5}
   TTLs = {0, 1, 3}
   MaxOrders = 60
-  HaltRule <- cNoHalt
+  HaltRule <- cHalt
 INVARIANT Conservation
 INVARIANT Lifetimes
 INVARIANT NoFillWithoutExec
 CHECK_DEADLOCK FALSE
+INVARIANT HaltedStaysStopped
+INVARIANT ResumedOnTime
+INVARIANT SwitchFollowsHalts
+INVARIANT NeverRaisedInRun
